@@ -358,6 +358,25 @@ def check_reduce_coverage(ctx):
         ctx.ob('R17.2-reduce-coverage', cls, not problems, ctx.loc(mod, f),
                '%s.__reduce__ carries every attribute that is state (directly, through __getstate__, or re-derived by the constructor from what is carried)' % cls,
                'dropped on pickle/deepcopy: %s' % ', '.join(problems) if problems else '')
+        # a value that travels through the constructor must arrive as it is: "not given" may only be recognised by `is None`, never by
+        # truthiness (0, 0.0, an empty array are legitimate values of a time, a volume, a state)
+        if ctor_call and init is not None and len(elts) >= 2 and isinstance(elts[1], ast.Tuple):
+            carried = set(params[:len(elts[1].elts)])
+            lossy = []
+            for n in ast.walk(init):
+                if isinstance(n, ast.BoolOp):
+                    for v in n.values[:-1] if isinstance(n.op, ast.Or) else n.values:
+                        if isinstance(v, ast.Name) and v.id in carried:
+                            lossy.append('`%s` (%s)' % (src(n), ctx.loc(prog.classes[dci].module, n)))
+                if isinstance(n, (ast.If, ast.IfExp)):
+                    t = n.test
+                    if isinstance(t, ast.UnaryOp) and isinstance(t.op, ast.Not):
+                        t = t.operand
+                    if isinstance(t, ast.Name) and t.id in carried:
+                        lossy.append('`if %s` (%s)' % (src(n.test), ctx.loc(prog.classes[dci].module, n)))
+            ctx.ob('R17.2-faithful-constructor', cls, not lossy, ctx.loc(prog.classes[dci].module, init),
+                   "the constructor __reduce__ goes through stores every carried argument as given: a default is chosen only when the argument is None",
+                   'a carried argument is tested for truthiness: %s' % '; '.join(sorted(set(lossy))[:3]) if lossy else '')
 
 
 def reduce_stubs():
